@@ -407,6 +407,8 @@ def run_to_completion(state: State, external_event: Union[dict, Event]) -> State
                         head.position = get_flow_config_from_head(
                             state, head
                         ).element_labels[head.catch_pattern_failure_label[-1]]
+                        # The head continues with the scores of the event that failed it
+                        head.matching_scores = event.matching_scores.copy()
                         heads_matching.append(head)
                     else:
                         flow_state = get_flow_state_from_head(state, head)
